@@ -1,11 +1,147 @@
-// Package vsync stands in for sync (placeholder: aliases; replaced by the scheduler-aware version).
+// Package vsync stands in for "sync" in the rewritten git-bug packages (only in the C18 build).
+//
+// Without an installed scheduler, or when called from a goroutine that is not a registered
+// scheduler thread, every type behaves exactly like its sync counterpart (it embeds the real
+// primitive). Inside a controlled run, acquiring operations are scheduling points of the
+// cooperative scheduler in sched.go: exactly one registered thread runs at a time and an operation
+// is only executed when the model state of the primitive allows it, so blocking, deadlock and
+// every interleaving of lock acquisitions are decided by the explorer, not by the Go runtime.
 package vsync
 
 import "sync"
 
-type Mutex = sync.Mutex
-type RWMutex = sync.RWMutex
-type WaitGroup = sync.WaitGroup
-type Once = sync.Once
-type Map = sync.Map
 type Locker = sync.Locker
+type Map = sync.Map
+type Pool = sync.Pool
+
+// Mutex mirrors sync.Mutex.
+type Mutex struct {
+	real  sync.Mutex
+	owner *Thread // model state (controlled runs)
+}
+
+func (m *Mutex) Lock() {
+	if t := current(); t != nil {
+		t.s.yield(t, &op{kind: opMutexLock, mu: m})
+		m.real.Lock()
+		return
+	}
+	m.real.Lock()
+}
+
+func (m *Mutex) Unlock() {
+	if t := current(); t != nil {
+		t.s.release(func() { m.owner = nil })
+	}
+	m.real.Unlock()
+}
+
+func (m *Mutex) TryLock() bool {
+	if t := current(); t != nil {
+		ok := false
+		t.s.yield(t, &op{kind: opTry, try: func() {
+			if m.owner == nil {
+				m.owner = t
+				ok = true
+			}
+		}})
+		if ok {
+			m.real.Lock()
+		}
+		return ok
+	}
+	return m.real.TryLock()
+}
+
+// RWMutex mirrors sync.RWMutex including Go's writer preference: a Lock that has been announced
+// blocks new readers, which is what makes recursive read-locking dangerous.
+type RWMutex struct {
+	real      sync.RWMutex
+	readers   int
+	writer    *Thread
+	announced int // writers that called Lock and wait for the readers to drain
+}
+
+func (rw *RWMutex) RLock() {
+	if t := current(); t != nil {
+		t.s.yield(t, &op{kind: opRLock, rw: rw})
+		rw.real.RLock()
+		return
+	}
+	rw.real.RLock()
+}
+
+func (rw *RWMutex) RUnlock() {
+	if t := current(); t != nil {
+		t.s.release(func() { rw.readers-- })
+	}
+	rw.real.RUnlock()
+}
+
+func (rw *RWMutex) Lock() {
+	if t := current(); t != nil {
+		t.s.yield(t, &op{kind: opWAnnounce, rw: rw})
+		t.s.yield(t, &op{kind: opWLock, rw: rw})
+		rw.real.Lock()
+		return
+	}
+	rw.real.Lock()
+}
+
+func (rw *RWMutex) Unlock() {
+	if t := current(); t != nil {
+		t.s.release(func() { rw.writer = nil })
+	}
+	rw.real.Unlock()
+}
+
+func (rw *RWMutex) RLocker() Locker { return (*rlocker)(rw) }
+
+type rlocker RWMutex
+
+func (r *rlocker) Lock()   { (*RWMutex)(r).RLock() }
+func (r *rlocker) Unlock() { (*RWMutex)(r).RUnlock() }
+
+// WaitGroup mirrors sync.WaitGroup; Wait is a blocking scheduling point.
+type WaitGroup struct {
+	real sync.WaitGroup
+	mu   sync.Mutex
+	n    int
+}
+
+func (wg *WaitGroup) Add(delta int) {
+	wg.mu.Lock()
+	wg.n += delta
+	wg.mu.Unlock()
+	wg.real.Add(delta)
+}
+
+func (wg *WaitGroup) Done() { wg.Add(-1) }
+
+func (wg *WaitGroup) Wait() {
+	if t := current(); t != nil {
+		t.s.yield(t, &op{kind: opWait, wg: wg})
+	}
+	wg.real.Wait()
+}
+
+func (wg *WaitGroup) count() int {
+	wg.mu.Lock()
+	defer wg.mu.Unlock()
+	return wg.n
+}
+
+// Once mirrors sync.Once (the function runs while holding a model mutex).
+type Once struct {
+	m    Mutex
+	done bool
+}
+
+func (o *Once) Do(f func()) {
+	o.m.Lock()
+	defer o.m.Unlock()
+	if !o.done {
+		defer func() { o.done = true }()
+		f()
+	}
+}
